@@ -170,7 +170,7 @@ Proof.
   assert (Hc2 : (match chords2 (k_layout k) with Some ch => chv2_is_idle ch | None => true end) = true).
   { destruct (chords2 (k_layout k)); [exact Hch|reflexivity]. }
   unfold k_is_idle. rewrite Hqq, Hw, He, Hl, Ho, Hp, Hs, Ht, Ha, Hseq, Hsc, Hhs, Hmv, Hmh, Hrp, Hcw, Hvk, Hcd, Hc2, Hwfi, Hlr.
-  cbn [negb orb andb N.eqb]. rewrite orb_true_r. cbn [andb].
+  cbn [negb orb andb N.eqb].
   assert (F1 : forallb (fun pk => mem_n pk (keycodes (k_layout k))) (k_prev_keys k) = true).
   { rewrite Hprev. apply forallb_forall. intros x Hx. apply mem_n_refl_in. exact Hx. }
   rewrite F1. cbn [andb].
